@@ -548,6 +548,8 @@ def check_ranges(ctx):
 
 
 def run(ctx):
+    from . import c05
+    c05.check_n_data(ctx)        # the listings print the source's number of fitted points: flags 1 and 4, as the source holds them when it is asked
     check_filter_table(ctx)
     check_callers(ctx)
     check_ranges(ctx)
